@@ -1,5 +1,6 @@
 //! vmon: runtime monitors for volute (see /verif/DESIGN.md).
 
+pub mod canon;
 pub mod ctx;
 pub mod gen;
 pub mod json;
